@@ -49,7 +49,8 @@ def patterns(w: int):
 
 
 def int_table(ctx: Ctx, h: Harness, thorough: bool):
-    fi = ctx.prog.func(f"{ENC}::IntegerDataEncoding._get_raw_value")
+    fi = ctx.prog.func_opt(f"{ENC}::IntegerDataEncoding._get_raw_value") or ctx.prog.resolve_method("IntegerDataEncoding", "parse_value") \
+        or ctx.prog.func(f"{ENC}::NumericDataEncoding.parse_value")
     widths = list(range(1, 66)) + [72, 96, 128] if thorough else [1, 2, 3, 7, 8, 9, 12, 15, 16, 17, 24, 31, 32, 33, 48, 63, 64, 65]
     offsets = range(8) if thorough else (0, 3, 7)
     n = 0
@@ -109,7 +110,8 @@ FLOAT_VALUES = [0.0, -0.0, 1.0, -2.5, float("inf"), float("-inf"), float("nan")]
 
 
 def float_table(ctx: Ctx, h: Harness, thorough: bool):
-    fi = ctx.prog.func(f"{ENC}::FloatDataEncoding._get_raw_value")
+    fi = ctx.prog.func_opt(f"{ENC}::FloatDataEncoding._get_raw_value") or ctx.prog.resolve_method("FloatDataEncoding", "parse_value") \
+        or ctx.prog.func(f"{ENC}::NumericDataEncoding.parse_value")
     offsets = range(8) if thorough else (0, 1, 5)
     n = 0
     for size, code in ((16, "e"), (32, "f"), (64, "d")):
@@ -227,8 +229,7 @@ def xml_declared(ctx: Ctx):
     from ..xmlmodel import attach_nsmap, clark, make_elem
     from . import xmlcommon as X
     h = X.harness(ctx.prog)
-    h.it.class_state[("NamespaceAwareElement", "_ns_prefix")] = "xtce"
-    h.it.class_state[("NamespaceAwareElement", "_nsmap")] = {"xtce": X.URI}
+    X.set_ns_state(h, "xtce", {"xtce": X.URI})
     field = bytes([0x01, 0x02, 0x03, 0x84])
     cases = [
         ("IntegerDataEncoding", {"sizeInBits": "32", "encoding": "unsigned", "byteOrder": "leastSignificantByteFirst"}, 0x84030201),
